@@ -131,7 +131,11 @@ func (c13) Gen(r *sim.Rand, tier string, run uint64) *sim.Scenario {
 		}
 	}
 	sc.Ops = ops
-	sc.Cfg["realmem"] = int64(r.Intn(4)) // how many of the devices are the library's own memory.RAM / memory.ROM
+	sc.Cfg["realmem"] = int64(r.Intn(4))
+	if r.Chance(1, 4) {
+		// keep the whole history inside the I/O window of one bank so that the FakeHW device is usable
+		sc.Cfg["realmem"] = 3
+	} // how many of the devices are the library's own memory.RAM / memory.ROM
 	sc.Cfg["region"] = region
 	return sc
 }
@@ -143,6 +147,15 @@ type realDev struct {
 	data   []byte
 	offset uint32
 	rom    bool
+	hw     bool // *memory.FakeHW: serves offsets $2000-$7FFF of any bank from one shared register file
+}
+
+// at returns the byte the device holds for bus address a.
+func (rd *realDev) at(a uint32) byte {
+	if rd.hw {
+		return rd.data[a&0xFFFF-0x2000]
+	}
+	return rd.data[a-rd.offset]
 }
 
 func (c13) Exec(sc *sim.Scenario, env *sim.Env) *sim.Violation {
@@ -177,6 +190,17 @@ func (c13) Exec(sc *sim.Scenario, env *sim.Env) *sim.Violation {
 			base = 0xFE0000
 		}
 		rd := &realDev{data: make([]byte, 0x20000), offset: base, rom: i%2 == 1}
+		if i == 2 {
+			// the library's I/O register placeholder
+			hw := &memory.FakeHW{}
+			rd = &realDev{data: make([]byte, 0x6000), hw: true, mem: hw}
+			for j := range rd.data {
+				rd.data[j] = devs[i].Fill(uint32(j))
+				hw.Write(0x2000+uint32(j), rd.data[j])
+			}
+			reals[i] = rd
+			continue
+		}
 		for j := range rd.data {
 			rd.data[j] = devs[i].Fill(base + uint32(j))
 		}
@@ -190,13 +214,15 @@ func (c13) Exec(sc *sim.Scenario, env *sim.Env) *sim.Violation {
 	// inWindow: may device i serve [s,e]? (a real memory only inside its backing slice)
 	inWindow := func(i int, s, e uint32) bool {
 		rd := reals[i]
+		if rd != nil && rd.hw {
+			return s>>16 == e>>16 && s&0xFFFF >= 0x2000 && e&0xFFFF <= 0x7FFF
+		}
 		return rd == nil || (s >= rd.offset && uint64(e) < uint64(rd.offset)+uint64(len(rd.data)))
 	}
 	useReal := make([]bool, 1<<20) // per block: is the owner's real memory attached there
 	peek := func(own int8, a uint32) byte {
 		if useReal[a>>4] {
-			rd := reals[own]
-			return rd.data[a-rd.offset]
+			return reals[own].at(a)
 		}
 		return devs[own].Peek(a)
 	}
@@ -370,8 +396,15 @@ func (c13) Exec(sc *sim.Scenario, env *sim.Env) *sim.Violation {
 					if rd.rom {
 						wantAfter = want // memory.ROM ignores writes
 					}
-					if rd.data[a-rd.offset] != wantAfter {
-						return &sim.Violation{Oracle: "write_value", Step: i, Msg: fmt.Sprintf("EaWrite(%06x,%02x): device %d now holds %02x there", a, val, own, rd.data[a-rd.offset])}
+					var now byte
+					if rd.hw {
+						now = rd.mem.Read(a)
+						rd.data[a&0xFFFF-0x2000] = now
+					} else {
+						now = rd.data[a-rd.offset]
+					}
+					if now != wantAfter {
+						return &sim.Violation{Oracle: "write_value", Step: i, Msg: fmt.Sprintf("EaWrite(%06x,%02x): device %d now holds %02x there", a, val, own, now)}
 					}
 				}
 				env.OpDone()
